@@ -81,6 +81,7 @@ def main():
     ap.add_argument('--only', default=None)
     ap.add_argument('--tier', default='quick')
     ap.add_argument('--json', default=os.path.join(HERE, 'last_result.json'))
+    ap.add_argument('--no-global', action='store_true')
     a = ap.parse_args()
     # the confirmed sub-agent changes kept under /verif/seeded are mutants too: each must be reported by its property's check
     seeded = os.path.join(VERIF, 'seeded')
@@ -110,8 +111,17 @@ def main():
         print(f'{status:15s} {mu["id"]:28s} {mu["prop"]} {dt:5.1f}s  {detail}')
     n_fire = sum(1 for mu in todo if mu['expect'] == 'fire'); n_twin = len(todo) - n_fire
     print(f'\n{len(todo)} variants ({n_fire} mutants, {n_twin} refactor twins): {len(todo) - bad} as expected, {bad} not, in {time.time() - t0:.0f}s')
-    with open(a.json, 'w') as f:
-        json.dump({'variants': len(todo), 'mutants': n_fire, 'twins': n_twin, 'unexpected': bad, 'rows': rows}, f, indent=1)
+    glob = None
+    if not a.only and not a.no_global:
+        # whole-repository rewrites (ast.unparse of every .py; every plain local renamed): all 20 checks must stay silent
+        r = subprocess.run([sys.executable, os.path.join(HERE, 'global_twins.py'), '--mode', 'both', '--jobs', str(min(a.jobs, 10))], capture_output=True, text=True)
+        print(r.stdout[-3000:])
+        glob = {'exit': r.returncode, 'tail': r.stdout.strip().splitlines()[-1:]}
+        if r.returncode:
+            bad += 1
+    if not a.only:
+        with open(a.json, 'w') as f:
+            json.dump({'variants': len(todo), 'mutants': n_fire, 'twins': n_twin, 'unexpected': bad, 'global_twins': glob, 'rows': rows}, f, indent=1)
     sys.exit(1 if bad else 0)
 
 
